@@ -62,8 +62,10 @@ func c19Render(v string, how int) string {
 			case r == '"' || r == '\\':
 				b.WriteByte('\\')
 				b.WriteRune(r)
-			case r < ' ':
+			case r == '\n' || r == '\r':
 				fmt.Fprintf(&b, `\%03o`, r)
+			case r < ' ':
+				b.WriteRune(r) // a raw control character (TAB …) inside the quotes is legal in a struct tag
 			case r > 0x7f:
 				b.WriteRune(r) // raw non-ASCII
 			default:
@@ -515,12 +517,26 @@ func init() {
 			fa, _ := mk("A", placeA, la, sa)
 			fb, _ := mk("B", placeB, lb, sb)
 			viaGroupAPI := c.Bool() // add the declaration through (*Group).AddGroup on an existing group instead of NewParser
+			customDelim := c.Bool() // NewNamedParser + NamespaceDelimiter "-" set before AddGroup: namespaced names are joined with it
 			c.Describe(func() interface{} {
 				return map[string]interface{}{"part": "collisions", "A": fmt.Sprintf("place %d long %q short %q", placeA, la, sa), "B": fmt.Sprintf("place %d long %q short %q", placeB, lb, sb), "duplicate": dup}
 			})
 			var err error
 			var pan interface{}
-			if viaGroupAPI {
+			if customDelim {
+				if viaGroupAPI || kind != 0 || collide != 2 {
+					c.Skip()
+				}
+				// with the delimiter "-": group namespace n + long name -> "n-name"; B's long tag is rewritten accordingly
+				lb = strings.ReplaceAll(lb, ".", "-")
+				fb, _ = mk("B", placeB, lb, sb)
+				func() {
+					defer func() { pan = recover() }()
+					p := flags.NewNamedParser("app", flags.None)
+					p.NamespaceDelimiter = "-"
+					_, err = p.AddGroup("Decl", "", reflect.New(reflect.StructOf([]reflect.StructField{fa, fb})).Interface())
+				}()
+			} else if viaGroupAPI {
 				func() {
 					defer func() { pan = recover() }()
 					p := flags.NewNamedParser("app", flags.None)
@@ -551,7 +567,8 @@ func init() {
 				}
 			}
 		case 5: // defaults on boolean flags
-			t := []reflect.Type{boolT, reflect.TypeOf([]bool{}), reflect.TypeOf((*bool)(nil)), strT, reflect.TypeOf([]string{})}[c.Choose(5)]
+			t := []reflect.Type{boolT, reflect.TypeOf([]bool{}), reflect.TypeOf((*bool)(nil)), strT, reflect.TypeOf([]string{}),
+				reflect.TypeOf([]*bool{}), reflect.TypeOf((**bool)(nil)), reflect.TypeOf((*[]bool)(nil)), reflect.TypeOf(func() {})}[c.Choose(9)]
 			n := c.Choose(3)
 			tag := `long:"flag"`
 			for i := 0; i < n; i++ {
@@ -585,7 +602,7 @@ func init() {
 		Rule: "(i) every tag string of length <= 8 (quick) / <= 9 (thorough) over {a : \" \\ space LF}, alone and behind a well-formed long:\"opt\", classified by a reference tag grammar (accept / reject / grey); " +
 			"(ii) 9 option attributes x 15 values (blanks, quotes, backslashes, line breaks, tabs, multi-byte text, empty, colons) x 3 escape renderings (strconv.Quote, all-\\xNN, octal+raw) x 1..3 repetitions x 1..3 blanks; " +
 			"(iii) required/optional/hidden x 9 spellings x present/absent x short names of 0/1/2 characters incl. multi-byte; (iv) group name/namespace/env-namespace, command name + 0..3 aliases, descriptions, positional names, ranges and minimum counts x values x renderings; " +
-			"(v) every pair of placements {top, plain subgroup, namespaced, doubly namespaced} x {same name, near miss, collision created by namespaces} x {long, short incl. non-ASCII} x {declared through NewParser, added with (*Group).AddGroup to an existing group}; (vi) default tags on bool / []bool / *bool vs string types; " +
+			"(v) every pair of placements {top, plain subgroup, namespaced, doubly namespaced} x {same name, near miss, collision created by namespaces} x {long, short incl. non-ASCII} x {declared through NewParser, added with (*Group).AddGroup to an existing group, NewNamedParser with NamespaceDelimiter \"-\" set before AddGroup}; (vi) default tags on bool / []bool / *bool / []*bool / **bool / *[]bool / func() vs string types; " +
 			"oracle: exported model fields echo the attributes exactly, malformed tags => ErrTag, long short name => ErrShortNameTooLong, bool default => ErrInvalidTag, colliding names => ErrDuplicatedFlag, never a panic; distinct = distinct (part, cell, error class)",
 		Assumptions:  []string{"keys containing control characters or backslashes, and empty keys, are grey (no panic, any error typed)", "single-valued keys are repeated with the same value only", "falsy spellings false/no/0 do not set a mark on options (pinned by the repository's tests)"},
 		RequiredHits: []string{"tag-reject", "tag-accept", "tag-grey", "echo:default", "echo:choice", "mark:required", "short-too-long", "structure", "duplicate", "near-collision", "bool-default"},
